@@ -17,45 +17,52 @@ Theorem C06_pdp_checker_complete :
 Proof. exact pdp_checker_complete_unfolded. Qed.
 Print Assumptions C06_pdp_checker_complete.
 
-(* accepted action lists OF THE INSTANCE'S LENGTH are feasible routes *)
+(* EVERY accepted action list, of whatever length, is a feasible route of the instance (the length test added by the
+   fix 5d5f57a -- known_findings.json: fixed "pdp/...: checker-accepts-tour-of-wrong-length" -- makes the former
+   hypothesis "length route = n + 1" a consequence of acceptance) *)
 Theorem C06_pdp_checker_sound :
   forall (i : pdp_inst) (acts : list nat),
     pdp_wf i ->
     let n := pgen_n i in
     let route := if pforce i then acts else 0%nat :: acts in
-    length route = (n + 1)%nat -> pdp_checker i acts = true ->
+    pdp_checker i acts = true ->
     ((forall j, (j < n + 1)%nat -> occ j route = 1%nat) /\ (forall a, In a route -> (a < n + 1)%nat)) /\
     (exists rest, route = 0%nat :: rest \/ route = rest ++ [0%nat]) /\
     (forall k, (1 <= k <= n / 2)%nat -> (pos k route < pos (k + n / 2) route)%nat).
 Proof. exact pdp_checker_sound_unfolded. Qed.
 Print Assumptions C06_pdp_checker_sound.
 
+Theorem C06_pdp_checker_rejects_wrong_length :
+  forall (i : pdp_inst) (acts : list nat),
+    pdp_wf i -> length (pdp_full i acts) <> (pgen_n i + 1)%nat -> pdp_checker i acts = false.
+Proof. exact pdp_checker_rejects_wrong_length. Qed.
+Print Assumptions C06_pdp_checker_rejects_wrong_length.
+
 Theorem C06_pdp_checker_rejects_delivery_before_pickup :
   forall (i : pdp_inst) (acts : list nat) (k : nat),
-    pdp_wf i -> length (pdp_full i acts) = (pgen_n i + 1)%nat -> (1 <= k <= pgen_n i / 2)%nat ->
+    pdp_wf i -> (1 <= k <= pgen_n i / 2)%nat ->
     (pos (k + pgen_n i / 2) (pdp_full i acts) <= pos k (pdp_full i acts))%nat -> pdp_checker i acts = false.
 Proof. exact pdp_checker_rejects_delivery_before_pickup. Qed.
 Print Assumptions C06_pdp_checker_rejects_delivery_before_pickup.
 
 Theorem C06_pdp_checker_rejects_missing :
   forall (i : pdp_inst) (acts : list nat) (j : nat),
-    pdp_wf i -> length (pdp_full i acts) = (pgen_n i + 1)%nat -> (j <= pgen_n i)%nat -> ~ In j (pdp_full i acts) ->
-    pdp_checker i acts = false.
+    pdp_wf i -> (j <= pgen_n i)%nat -> ~ In j (pdp_full i acts) -> pdp_checker i acts = false.
 Proof. exact pdp_checker_rejects_missing. Qed.
 Print Assumptions C06_pdp_checker_rejects_missing.
 
 Theorem C06_pdp_checker_rejects_duplicate :
-  forall (i : pdp_inst) (acts : list nat) (j : nat), (2 <= occ j (pdp_full i acts))%nat -> pdp_checker i acts = false.
+  forall (i : pdp_inst) (acts : list nat) (j : nat),
+    pdp_wf i -> (2 <= occ j (pdp_full i acts))%nat -> pdp_checker i acts = false.
 Proof. exact pdp_checker_rejects_duplicate. Qed.
 Print Assumptions C06_pdp_checker_rejects_duplicate.
 
-(* REFUTED without the length hypothesis: the checker pairs node k with node k + len//2 of the list it is given, never
-   with the instance's n, so a route that omits the highest-numbered pair(s) is accepted *)
-Theorem C06_pdp_checker_truncated_refuted :
-  exists (i : pdp_inst) (acts : list nat),
-    pdp_wfb i = true /\ pdp_checker i acts = true /\ ~ pdp_feasible i acts /\ ~ In 4%nat acts /\ pgen_n i = 4%nat.
-Proof. exact pdp_checker_truncated_refuted. Qed.
-Print Assumptions C06_pdp_checker_truncated_refuted.
+(* the witnesses of the repaired defect: n = 4, depot implicit, [1; 2] and n = 2, forced start, [0] are rejected now *)
+Example C06_pdp_truncated_now_rejected :
+  let i := {| pgen_n := 4; pforce := false; pdist := [[0;1;2;3;4]; [1;0;1;2;3]; [2;1;0;1;2]; [3;2;1;0;1]; [4;3;2;1;0]] |} in
+  let j := {| pgen_n := 2; pforce := true; pdist := [[0;1;2]; [1;0;1]; [2;1;0]] |} in
+  pdp_checker i [1; 2]%nat = false /\ pdp_checker j [0]%nat = false /\ pdp_checker j [0; 1; 2]%nat = true.
+Proof. vm_compute. repeat split. Qed.
 
 Example C06_pdp_nonvacuous :
   let i := {| pgen_n := 4; pforce := false; pdist := [[0;1;2;3;4]; [1;0;1;2;3]; [2;1;0;1;2]; [3;2;1;0;1]; [4;3;2;1;0]] |} in let j := {| pgen_n := 4; pforce := true; pdist := [[0;1;2;3;4]; [1;0;1;2;3]; [2;1;0;1;2]; [3;2;1;0;1]; [4;3;2;1;0]] |} in
